@@ -20,6 +20,7 @@ package main
 import (
 	"fmt"
 	"strings"
+	"unicode/utf8"
 )
 
 const k8sLookahead = 128 * 1024
@@ -231,7 +232,7 @@ func walkK8sStream(cs *Case, so *streamObs, st *oracleStats, note func(*Viol)) *
 				for m < len(body) && m < len(whole) && body[m] == whole[m] {
 					m++
 				}
-				if len(body)-m <= 8 && ((m < len(whole) && needsEscape(whole[m])) || (m > 0 && needsEscape(whole[m-1]))) {
+				if len(body)-m <= 8 && ((m < len(whole) && escapedAt(whole, m)) || (m > 0 && needsEscape(whole[m-1]))) {
 					// the cut fell inside the escape sequence of whole[m] (or of the
 					// backslash before it, whose first half is still a common prefix)
 					note(mk("cutoff-splits-escape-sequence", fmt.Sprintf("cut_off_event_by_limit cut the escaped text of the line inside an escape sequence (line offset %d): the log of output event %d ends with %q where the line has %q", m, ev.rec.N, tail(body, 12), short(whole[max0(m-8):], 16)), pos, a))
@@ -364,6 +365,20 @@ func walkK8sStream(cs *Case, so *streamObs, st *oracleStats, note func(*Viol)) *
 
 func needsEscape(c byte) bool {
 	return c < 0x20 || c == '"' || c == '\\' || c == '<' || c == '>' || c == '&'
+}
+
+// escapedAt: the text at s[m:] starts with something insane-json writes as an
+// escape sequence: an ASCII character that needs escaping, U+2028 / U+2029
+// (written as \u2028 / \u2029) or a byte that is not valid UTF-8 (\ufffd).
+func escapedAt(s string, m int) bool {
+	if needsEscape(s[m]) {
+		return true
+	}
+	if s[m] < utf8.RuneSelf {
+		return false
+	}
+	r, size := utf8.DecodeRuneInString(s[m:])
+	return r == '\u2028' || r == '\u2029' || (r == utf8.RuneError && size == 1)
 }
 
 func max0(x int) int {
